@@ -4,6 +4,7 @@ C10 - a circuit that cannot settle is stopped with an error; one that settles is
 Evaluation counter at the eval_block boundary + brute-force search for consistent assignments.
 """
 
+import asyncio
 import itertools
 
 from .. import core, harness, hooks, vloop
@@ -212,6 +213,7 @@ def run_network(spec, walk, ctx, case):
     async def drive(sim, created):
         await harness.settle(3)
         for step, vec in enumerate(walk):
+            result['cur_step'] = step
             if step:
                 state['burst_evals'] = 0
                 for s, v in vec.items():
@@ -230,9 +232,46 @@ def run_network(spec, walk, ctx, case):
                 return
         return True
 
+    async def run_main(loop):
+        # the same, but the circuit is run by edzed.run() and fed by a supporting coroutine
+        edzed.reset_circuit()
+        created = build()
+        sim = harness.Sim()
+        out_run.update(sim=sim, objs=created, started=False, result=None)
+
+        async def feeder():
+            await sim.circuit.wait_init()
+            out_run['started'] = True
+            try:
+                out_run['result'] = await drive(sim, created)
+            except asyncio.CancelledError:
+                # run() cancels its supporting tasks when the simulation has ended
+                if result['stopped_at'] is None and not sim.circuit.is_ready():
+                    result['stopped_at'] = result.get('cur_step', 0)
+                raise
+            finally:
+                # a farewell event ('switch off on exit'): refused when the circuit is shutting
+                # down, i.e. this supporting task FAILS during the shutdown
+                edzed.ExtEvent(created[spec['sources'][0]], 'put').send(False)
+        sim.task = asyncio.create_task(edzed.run(feeder()), name='vf: runtask')
+        try:
+            await sim.task
+            out_run['run_exc'] = None
+        except BaseException as err:    # pylint: disable=broad-except
+            out_run['run_exc'] = err
+
+    out_run = {}
     hooks.set_idle_callback(on_idle)
     try:
-        out = harness.run_sim(build, drive)
+        if spec.get('via_run'):
+            ctx.count('run_with_feeding_coroutine')
+            loop, _r, exc = vloop.run(run_main)
+            edzed.reset_circuit()
+            out = dict(out_run, loop=loop, exc=exc)
+            if not out['started'] and out['sim'].circuit.error is not None:
+                out['started'] = False
+        else:
+            out = harness.run_sim(build, drive)
     finally:
         hooks.set_idle_callback(None)
     if out['exc'] is not None and not isinstance(out['exc'], (vloop.Deadlock,)):
@@ -251,6 +290,13 @@ def run_network(spec, walk, ctx, case):
     if not out.get('started'):
         stopped = 0
     unstable_err = (isinstance(err, edzed.EdzedCircuitError) and 'instab' in str(err).lower())
+    if spec.get('via_run') and unstable_err:
+        ctx.count('instability_reported_by_run')
+        if out.get('run_exc') is not err:
+            raise core.Violation(
+                'run-did-not-raise-the-instability-error',
+                f"the simulation ended with {err!r}, but edzed.run() (feeding coroutine failed "
+                f"with a refused event during the shutdown) raised {out.get('run_exc')!r}")
     if isinstance(err, HarnessAbort) or state['max_burst'] > 10 * n:
         raise core.Violation(
             'not-stopped-after-bounded-evaluations',
@@ -260,7 +306,10 @@ def run_network(spec, walk, ctx, case):
         srcvals = dict(walk[0])
         for k in range(1, step + 1):
             srcvals.update(walk[k])
-        sat = consistent_assignments(spec, srcvals)
+        if spec.get('single_path'):
+            sat = [{}]      # acyclic without feedback: always consistent (no brute force)
+        else:
+            sat = consistent_assignments(spec, srcvals)
         if stopped is not None and step > stopped:
             break
         if not sat:
@@ -278,7 +327,7 @@ def run_network(spec, walk, ctx, case):
         if stopped == step:
             # stopped although a consistent assignment exists
             if acyclic:
-                bound = eval_bound(spec)
+                bound = 0 if spec.get('single_path') else eval_bound(spec)
                 if bound <= 3 * n:
                     raise core.Violation(
                         'acyclic-network-reported-unstable',
@@ -398,12 +447,34 @@ def reconv(rng):
     return spec
 
 
+def big_chain(rng):
+    """
+    A long single-path chain of inverters/identities (every block is reached by a change along
+    exactly one path), created in random order; some blocks have a side input from the source.
+    """
+    length = rng.choice([66, 70, 100, 130, 200, 300])
+    cbs = []
+    for i in range(length):
+        prev = 's0' if i == 0 else f"c{i - 1}"
+        if i and rng.random() < 0.05:
+            cbs.append({'name': f"c{i}", 'kind': 'xor', 'ins': [prev, '#F']})
+        else:
+            cbs.append({'name': f"c{i}", 'kind': rng.choice(['not', 'ident']), 'ins': [prev]})
+    rng.shuffle(cbs)
+    return {'sources': ['s0'], 'init': {'s0': rng.random() < 0.5}, 'fed': [], 'cblocks': cbs,
+            'single_path': True, 'perturb': True}
+
+
 def gen(ctx):
     rng = ctx.rng('gen')
     n = 300 if ctx.tier == 'quick' else 8000
     for i in range(n):
         r = rng.random()
-        if r < 0.12:
+        if r < 0.03:
+            spec = big_chain(rng)
+            kind = 'big_chain'
+            ctx.count('long_single_path_chains')
+        elif r < 0.12:
             spec = reconv(rng)
             kind = 'reconv'
         elif r < 0.45:
@@ -450,6 +521,8 @@ def gen(ctx):
             for w in walk:
                 cur.update(w)
             walk.append({s: not cur[s]})
+        if kind in ('random', 'ring') and rng.random() < 0.25:
+            spec['via_run'] = True
         yield {'kind': kind, 'spec': spec, 'walk': walk}
 
 
